@@ -453,3 +453,49 @@ Example memo_sequential_ok :
   let s := mrun (minit [[OSet 2; OSet 3]; [OPull]]) [0; 0; 0; 1; 1; 1; 0; 0; 0]%nat in
   final_pull s = F (m_sv s) /\ existsb t_panic (m_thr s) = false.
 Proof. vm_compute. split; reflexivity. Qed.
+
+(* ------------------------------------------------------------------------------------ *)
+(** * (e) signal read vs concurrent write (F-C19-f, open) *)
+
+Example signal_read_total_refuted : exists sched, r_r (rrun rinit sched) = RPanic.
+Proof. exists [0; 1]%nat. reflexivity. Qed.
+
+Lemma rstep_no_panic s t :
+  r_r s <> RPanic -> (match t, r_w s, r_r s with 1%nat, W1, R0 => true | _, _, _ => false end) = false ->
+  r_r (rstep t s) <> RPanic.
+Proof.
+  intros H C. destruct t as [|[|t]]; cbn; auto.
+  - destruct (r_w s); auto.
+  - destruct (r_r s) eqn:E; cbn; try congruence.
+    destruct (r_w s); cbn; try discriminate.
+Qed.
+
+(** except when the read falls inside the write's critical section, the reader never panics
+    (and it then returns the value before or after the write) *)
+Theorem signal_read_total_except_contended :
+  forall sched, read_under_write rinit sched = false ->
+    r_r (rrun rinit sched) <> RPanic
+    /\ forall v, r_r (rrun rinit sched) = RDone v -> v = 1 \/ v = 2.
+Proof.
+  intros sched.
+  assert (G : forall s, r_r s <> RPanic -> (r_sv s = 1 \/ r_sv s = 2) ->
+              (forall v, r_r s = RDone v -> v = 1 \/ v = 2) ->
+              read_under_write s sched = false ->
+              r_r (rrun s sched) <> RPanic /\ forall v, r_r (rrun s sched) = RDone v -> v = 1 \/ v = 2).
+  { induction sched as [|t r IH]; intros s H Hv Hd C; cbn in *; auto.
+    apply orb_false_iff in C as [C1 C2]. apply IH; auto.
+    - apply rstep_no_panic; auto.
+    - destruct t as [|[|t]]; cbn; auto; destruct (r_w s); cbn; auto; destruct (r_r s); cbn; auto.
+    - destruct t as [|[|t]]; cbn; auto.
+      + destruct (r_w s); cbn; auto.
+      + destruct (r_r s) eqn:E; cbn; auto.
+        * destruct (r_w s); cbn; try discriminate; intros v [= <-]; auto.
+        * rewrite E. auto.
+        * rewrite E. auto. }
+  apply G; cbn; auto; discriminate.
+Qed.
+
+Example signal_read_except_nontrivial :
+  read_under_write rinit [0; 0; 1]%nat = false /\ r_r (rrun rinit [0; 0; 1]%nat) = RDone 2
+  /\ read_under_write rinit [0; 1]%nat = true.
+Proof. repeat split; reflexivity. Qed.
